@@ -95,3 +95,14 @@ Theorem C11_source_sync_delete_entry :
   run_delete_entry = Some [("CompareAndDelete", [VPtr true "key"; VPtr true "e"])].
 Proof. exact tie_sync_delete_entry. Qed.
 Print Assumptions C11_source_sync_delete_entry.
+
+(* ---- the window predicate of the correspondence check is proved of the model ---- *)
+From Cache Require Import Check CheckProofs.
+
+(* for every hash function, configuration and operation sequence, the model's own results satisfy the predicate the
+   check evaluates on the implementation's observations ([Walk B; writes; cleanup; Walk A] => A is B with the writes
+   applied minus exactly the long-expired entries): a violation verdict is a trace the model cannot produce *)
+Theorem C11_window_predicate_sound : forall hash cfg ops,
+  c11_scan hash cfg b0 ops (b_run hash cfg b0 (map no_victims ops)).1.2 None = true.
+Proof. exact c11_scan_model_runs. Qed.
+Print Assumptions C11_window_predicate_sound.
